@@ -164,7 +164,12 @@ class StmtMixin:
                 if base.escaped:
                     raise OutOfReach('mutation of an escaped dict')
                 key = py_const(self.ev(tgt.slice, path))
-                base.items[key] = v
+                if not isinstance(tgt.value, ast.Name):
+                    raise OutOfReach('item assignment on a dict that is not a local name')
+                # functional update of the local binding: the dict object may be shared with other paths
+                nd = VDict(dict(base.items))
+                nd.items[key] = v
+                path.env[tgt.value.id] = nd
                 return
             raise OutOfReach(f'subscript store on {base.kind}')
         raise OutOfReach('assignment target')
@@ -404,6 +409,10 @@ class StmtMixin:
                 if p.done or p.exc is not None or p.heap != heap_before:
                     raise OutOfReach(f'loop over a library iterable at line {st.lineno} with effects')
             return [path]
+        if isinstance(src, VElemList) and self.loop_invariant(st) is None:
+            conc = self.concretize_elemlist(src, path)
+            if conc is not None:
+                src = conc
         if isinstance(src, VElemList):
             return self.for_elemlist(st, src, path)
         if self.is_concrete_iter(src):
